@@ -416,6 +416,10 @@ unsafe fn drop_inner(p: *mut WakerHeader, capacity: usize) {
 
 impl Drop for WakerList {
     fn drop(&mut self) {
+        #[cfg(futures_buffered_verif)]
+        crate::verif::probe(crate::verif::Probe::ListDrop {
+            base: self.ptr.as_ptr() as usize,
+        });
         let meta = unsafe { &*self.ptr.as_ptr() };
         if meta.dec_strong() {
             unsafe { drop_inner(self.ptr.as_ptr().cast(), meta.len) }
